@@ -398,6 +398,13 @@ def r20_6(run, model):
                 a = a["expr"]
             if a["k"] == "Lit" or a["k"] in ("Array", "Closure"):
                 continue
+            # a slice of segments compared with a slice of segments (`parts.ends_with(&wanted)` over `name.split("::").collect()`) compares
+            # whole segments by construction
+            r_ = c["recv"]
+            if r_["k"] == "Path" and len(r_["segs"]) == 1 and r_["segs"][0] in lets and \
+                    any(x["k"] == "MethodCall" and x["method"] == "collect" for x in S.walk(lets[r_["segs"][0]])) and \
+                    any(x["k"] == "MethodCall" and x["method"] in ("split", "iter", "into_iter", "map") for x in S.walk(lets[r_["segs"][0]])):
+                continue
             if a["k"] == "Path" and len(a["segs"]) == 1 and lets.get(a["segs"][0], {}).get("k") == "Closure":
                 continue
             # a character predicate (a function of the file, `char::is_alphanumeric`, ..) tests one character, not a name
